@@ -721,6 +721,13 @@ func (t *timeline) run() {
 		if exp.OK && !exp.Unchecked {
 			exp.Apply(m)
 			w.count("stmt_ok_" + s.Kind)
+			if s.Kind == KCreateDB && t.img == nil && (p.Knobs.BiasKey > 0 || p.Knobs.BiasLSN > 0) {
+				if err := w.BiasHeader(s.DB, p.Knobs.BiasKey, p.Knobs.BiasLSN); err != nil {
+					t.r.res.Harness = err.Error()
+					t.stop = true
+					break
+				}
+			}
 		}
 		t.noteProbes(s, exp, recOps)
 		// ---- resolve admissible states of images taken inside this statement ----
